@@ -171,3 +171,57 @@ func VF_C13_equal() {
 	}
 	rvCompare([]byte{byte(op), byte(opcode.RET)}, []*rvItem{a, b}, "EQUAL", 8)
 }
+
+//vf:tier quick
+//vf:bigint theory
+//vf:unwind 120
+//vf:wall 300
+//vf:bound two-instruction sequences on one container: a mutator (REMOVE SETITEM APPEND CLEARITEMS REVERSEITEMS POPITEM) followed by a reader (PICKITEM HASKEY SIZE KEYS VALUES UNPACK) with its own key; container: a map with keys 5, a symbolic 64-bit integer (may coincide with the others) and 9 or an array of three symbolic integers; keys symbolic 64-bit integers; a further reference to the container stays on the stack
+func VF_C13_compound_mutate_then_read() {
+	var c *rvItem
+	if vfChoose("container", 0, 1) == 0 {
+		c = &rvItem{k: rvMap}
+		rvMapSet(c, rvMkSmall(5), rvMkSmall(10))
+		rvMapSet(c, &rvItem{k: rvInt, n: big.NewInt(vfI64("mk"))}, rvMkSmall(20))
+		rvMapSet(c, rvMkSmall(9), rvMkSmall(30))
+	} else {
+		c = &rvItem{k: rvArray, el: vhInts("e", 3)}
+	}
+	k1 := &rvItem{k: rvInt, n: big.NewInt(vfI64("k1"))}
+	k2 := &rvItem{k: rvInt, n: big.NewInt(vfI64("k2"))}
+	var first []byte
+	var args []*rvItem
+	switch vfChoose("mutator", 0, 5) {
+	case 0:
+		first, args = []byte{byte(opcode.REMOVE)}, []*rvItem{c, k1}
+	case 1:
+		first, args = []byte{byte(opcode.SETITEM)}, []*rvItem{c, k1, rvMkSmall(77)}
+	case 2:
+		first, args = []byte{byte(opcode.APPEND)}, []*rvItem{c, rvMkSmall(88)}
+	case 3:
+		first, args = []byte{byte(opcode.CLEARITEMS)}, []*rvItem{c}
+	case 4:
+		first, args = []byte{byte(opcode.REVERSEITEMS)}, []*rvItem{c}
+	case 5:
+		first, args = []byte{byte(opcode.POPITEM), byte(opcode.DROP)}, []*rvItem{c}
+	}
+	var st []*rvItem
+	var second byte
+	switch vfChoose("reader", 0, 5) {
+	case 0:
+		second, st = byte(opcode.PICKITEM), []*rvItem{c, c, k2}
+	case 1:
+		second, st = byte(opcode.HASKEY), []*rvItem{c, c, k2}
+	case 2:
+		second, st = byte(opcode.SIZE), []*rvItem{c, c}
+	case 3:
+		second, st = byte(opcode.KEYS), []*rvItem{c, c}
+	case 4:
+		second, st = byte(opcode.VALUES), []*rvItem{c, c}
+	case 5:
+		second, st = byte(opcode.UNPACK), []*rvItem{c, c}
+	}
+	st = append(st, args...)
+	script := append(append([]byte{}, first...), second, byte(opcode.RET))
+	rvCompare(script, st, "mutate-read", 8)
+}
